@@ -1,0 +1,22 @@
+//go:build verif
+
+package parser
+
+// Verification hooks. Compiled only with -tags verif; add-only.
+
+// VerifStripNonMSOComments exposes the first pre-pass.
+func VerifStripNonMSOComments(s string) string { return stripNonMSOComments(s) }
+
+// VerifPreprocessHTMLEntities exposes the entity pre-pass.
+func VerifPreprocessHTMLEntities(s string) string { return preprocessHTMLEntities(s) }
+
+// VerifEscapeAttributeAmpersands exposes the attribute ampersand scanner.
+func VerifEscapeAttributeAmpersands(s string) string { return escapeAttributeAmpersands(s) }
+
+// VerifWrapMJTextContent exposes the CDATA wrapping pre-pass.
+func VerifWrapMJTextContent(s string) string { return wrapMJTextContent(s) }
+
+// VerifPreprocess runs the three textual pre-passes in the order ParseMJML does.
+func VerifPreprocess(s string) string {
+	return wrapMJTextContent(preprocessHTMLEntities(stripNonMSOComments(s)))
+}
